@@ -684,13 +684,27 @@ func c17ToolMain(args []string) int {
 	b.WriteString("\n]\n\n")
 	b.WriteString("/-- roots positively refuted: the value passes through a transformation whose discarded error moves the root to another directory -/\ndef refuted : List String :=\n  (locatorRoots.filter fun f => f.2.2.1 == \"REFUTED\").map fun f => f.1 ++ \": \" ++ f.2.2.2.1\n\n")
 	b.WriteString("/-- roots the extractor could not follow (not a violation; the T / U / J cases are amplified) -/\ndef notEstablished : List String :=\n  (locatorRoots.filter fun f => f.2.2.1 == \"unknown\").map fun f => f.1 ++ \": \" ++ f.2.2.2.1\n\n")
-	toolIdent := true
+	opt := func(v string, found bool) string {
+		switch {
+		case !found:
+			return "none"
+		case v == c17OK:
+			return "some true"
+		case v == c17Refuted:
+			return "some false"
+		}
+		return "none"
+	}
+	toolV, toolFound := c17OK, false
 	for _, f := range facts {
-		if strings.HasSuffix(f.Site, "CreateRuntimeProvider") && f.Identity == c17Refuted {
-			toolIdent = false
+		if strings.HasSuffix(f.Site, "CreateRuntimeProvider") {
+			toolFound = true
+			if f.Identity == c17Refuted || toolV == c17OK && f.Identity != c17OK {
+				toolV = f.Identity
+			}
 		}
 	}
-	fmt.Fprintf(&b, "/-- `CLIInterpreter.CreateRuntimeProvider`: the locator's Root is the configured `Dir` value itself (not refuted) -/\ndef toolRootIsDir : Bool := %v\n\n", toolIdent)
+	fmt.Fprintf(&b, "/-- `CLIInterpreter.CreateRuntimeProvider`: is the locator's Root the configured `Dir` value itself?\n    `some true` established, `some false` refuted, `none` not established (no literal found / not followed) -/\ndef toolRootFact : Option Bool := %s\n\n/-- what the driver instantiates the model with: not refuted -/\ndef toolRootIsDir : Bool := toolRootFact.getD true\n\n", opt(toolV, toolFound))
 	b.WriteString("/-- every call reachable from `FileImportLocator.Resolve` that touches the file system (or cannot be classified):\n    (site, call, verdict, reason). `configured` = after the containment test, guarded by its result, argument = the tested value. -/\ndef resolveCalls : List (String × String × String × String) := [")
 	for i, f := range openFacts {
 		if i > 0 {
@@ -716,7 +730,23 @@ func c17ToolMain(args []string) int {
 		}
 	}
 	b.WriteString("\n]\n\n")
-	fmt.Fprintf(&b, "/-- the facts the import model is instantiated with (`true` = not refuted) -/\ndef importFacts : Ecal.Path.ImportFacts :=\n  { receiverIsConfiguredLocator := %v, argumentIsPathValue := %v }\n\n", recvOK, argOK)
+	rv, av, found := c17OK, c17OK, false
+	for _, f := range impFacts {
+		if f.Receiver == "-" {
+			continue
+		}
+		found = true
+		if f.RecvVerdict == c17Refuted || rv == c17OK && f.RecvVerdict != c17OK {
+			rv = f.RecvVerdict
+		}
+		if f.ArgVerdict == c17Refuted || av == c17OK && f.ArgVerdict != c17OK {
+			av = f.ArgVerdict
+		}
+	}
+	fmt.Fprintf(&b, "/-- is the receiver of every `Resolve` call reachable from `importRuntime.Eval` the provider's configured locator?\n    (`none`: not established, e.g. no call found) -/\ndef receiverFact : Option Bool := %s\n\n", opt(rv, found))
+	fmt.Fprintf(&b, "/-- is its argument `fmt.Sprint` of the value of the path expression (child 0)? -/\ndef argumentFact : Option Bool := %s\n\n", opt(av, found))
+	b.WriteString("/-- what the driver instantiates the import model with: every fact that is not refuted -/\ndef importFacts : Ecal.Path.ImportFacts :=\n  { receiverIsConfiguredLocator := receiverFact.getD true, argumentIsPathValue := argumentFact.getD true }\n\n")
+	_, _ = recvOK, argOK
 	b.WriteString("end Ecal.Gen.C17\n")
 	if err := os.WriteFile(args[1], []byte(b.String()), 0644); err != nil {
 		fmt.Fprintln(os.Stderr, err)
